@@ -65,5 +65,5 @@ Definition shared_inventory : list (str * kind) := [
 
 Definition unclassified_mutation_sites : nat := 0.
 
-(* serialization._get_type_registry: inplace *)
+(* serialization._get_type_registry: publish *)
 Definition registry_shape_modelled : bool := true.
